@@ -22,10 +22,11 @@ func init() {
 		ID: "C01", Level: "exploration",
 		Rule: "expression programs: (a) every single-operator expression (6 unary, *, 19 binary, conversions to 34 types, calls, index, slice, selector, assertion, composite literals, builtins, unsafe) over the full 78-atom alphabet in the uses `_ = e` and `x := e`; " +
 			"(b) every atom and every single-operator expression over the 18-atom alphabet in each of ~100 use contexts (typed var, assignment, op-assignment, return, send, if/for/switch/case/range, const, expression statement, defer/go, 2-value define, argument); " +
-			"(c) depth-2 expressions over a reduced alphabet; (d) ~2.4k statement/declaration-rule programs generated from templates over 9 types (redeclaration by := from tuples/comma-ok forms, no-new-variable, tuple assignment, return count/type, range assignment, misplaced break/continue/fallthrough/goto, duplicate cases, value-less calls used as values, ...); (e) the C10 body space; each is built through the canonical front-end operation sequence into a fresh package; oracle: no error reported => every written file parses and go/types reports nothing but unused vars/imports. " +
+			"(c) depth-2 expressions over a reduced alphabet; (x) stages (a) and the atoms x all uses repeated in the XGo-builtin configuration (thorough: also (b)); (d) ~2.4k statement/declaration-rule programs generated from templates over 9 types (redeclaration by := from tuples/comma-ok forms, no-new-variable, tuple assignment, return count/type, range assignment, misplaced break/continue/fallthrough/goto, duplicate cases, value-less calls used as values, ...); (e) the C10 body space; each is built through the canonical front-end operation sequence into a fresh package; oracle: no error reported => every written file parses and go/types reports nothing but unused vars/imports. " +
 			"non-trivial = accepted by the builder; distinct = distinct emitted text",
 		Assumptions:    []string{"go/types 1.23.5 is the Go specification for the oracle", "the environment package (fixture) is type-checked by go/types itself"},
 		ThoroughBudget: 60 * time.Minute,
+		QuickBudget:    15 * time.Minute,
 		Run:            run,
 		Replay:         replay,
 	})
@@ -67,10 +68,58 @@ func classify(r *ex.Run) (class, detail string, bad bool) {
 		fmt.Sprintf("builder accepted `%s` in use %s, go/types rejects the emitted package: %s\nemitted:\n%s", r.E.Render(), r.U.Name, r.Emitted.ErrString(), txt), true
 }
 
+// xgoImporter is the closed world of the XGo-builtin configuration: env + the declarations of
+// internal/builtin (as package bi) + a declaration-only math/big.
+func xgoImporter() *fixture.Importer {
+	return ex.Importer(map[string]string{"math/big": gx.MathBigStub, "bi": gx.BiFixture()})
+}
+
+var xgoOpt = gx.Options{Conf: gx.XGoConf}
+
+// runXGo repeats the stages that do not depend on the use context in the XGo-builtin configuration
+// (untyped big-number kinds configured): quick = (a) and the atoms in every use; thorough adds (b).
+func runXGo(c *vf.Ctx, idx *int64) {
+	imp := xgoImporter()
+	ex.Plan{Thorough: c.Thorough()}.Each(func(stage string, e *ex.E, u *ex.Use) {
+		if stage == "c:depth2" || (stage == "b:depth1-alluses" && !c.Thorough()) {
+			return
+		}
+		i := *idx
+		*idx++
+		if !c.MineIdx(i) || c.Expired() {
+			return
+		}
+		r := ex.Exec(imp, e, u, xgoOpt, false)
+		c.Eval(1)
+		c.Tally("stage:xgo:"+stage, 1)
+		if r.Accepted {
+			c.Tally("accepted", 1)
+			c.Tally("xgo_accepted", 1)
+			for _, t := range r.Texts {
+				c.Distinct(t)
+				if strings.Contains(t, "bi.") {
+					c.Tally("xgo_emitted_refers_to_big_number_package", 1)
+				}
+			}
+		} else {
+			c.Tally("rejected", 1)
+			c.Outcome("xgo:rejected")
+		}
+		class, detail, bad := classify(r)
+		if bad {
+			c.Outcome("xgo:bad:" + oracle.ErrCategory(class[strings.LastIndex(class, "|")+1:]))
+			c.Violation("xgo|"+class, "XGo-builtin configuration: "+detail, payload{e.Render(), u.Name, i, true})
+		} else if r.Accepted {
+			c.Outcome("xgo:accepted-ok")
+		}
+	})
+}
+
 func run(c *vf.Ctx) {
 	imp := ex.Importer(nil)
 	plan := ex.Plan{Thorough: c.Thorough()}
 	var idx int64
+	defer runXGo(c, &idx)
 	defer runStmts(c, imp, &idx)
 	plan.Each(func(stage string, e *ex.E, u *ex.Use) {
 		i := idx
@@ -277,11 +326,15 @@ func replay(raw json.RawMessage) (string, bool) {
 	}
 	var found *ex.Run
 	var idx int64
+	opt := gx.Options{}
+	if p.XGo {
+		imp, opt = xgoImporter(), xgoOpt
+	}
 	for _, th := range []bool{false, true} {
 		idx = 0
 		ex.Plan{Thorough: th}.Each(func(stage string, e *ex.E, u *ex.Use) {
 			if found == nil && u.Name == p.Use && e.Render() == p.Expr {
-				found = ex.Exec(imp, e, u, gx.Options{}, true)
+				found = ex.Exec(imp, e, u, opt, true)
 			}
 			idx++
 		})
